@@ -8,7 +8,7 @@
 From Apko Require Import Base.Prelude Base.C01Lib Model.Repro Spec.ReproSpec
   Proofs.ReproProofs Generated.C01Calls.
 From Apko Require Import Model.BuildSteps Generated.C10Steps Model.Repro2 Proofs.Repro2Proofs Proofs.ReproGenerated.
-From Apko Require Model.Resolver Proofs.ResolveProofs2 Proofs.ReproResolve.
+From Apko Require Model.Resolver Proofs.ResolveProofs2 Proofs.ReproResolve Generated.C08Caches.
 From Coq Require Import Permutation Sorted ZArith.
 Open Scope string_scope. Open Scope list_scope.
 
@@ -338,6 +338,54 @@ Theorem c01_repositories_file_without_rewrite_refuted :
     final_repos defs c10_setrepos_sources (fun _ => true) c st <> final_repos defs c10_setrepos_sources (fun _ => true) c st'.
 Proof. exact repositories_need_the_rewrite. Qed.
 Print Assumptions c01_repositories_file_without_rewrite_refuted.
+
+(* ---- wave 3: what a build must not inherit from what happened before ------------------------
+
+   (1) the file the single layer is written to (ImageLayoutToLayer; a reused temp
+   directory or tarball path may hold a longer earlier result): every call that
+   opens it — flags read from the source, c01_layer_file_open — truncates or
+   creates a new file, so the file is what this build writes whatever was there.
+   An open without O_TRUNC makes layer_file_opens_fresh false. *)
+Theorem c01_layer_file_independent_of_earlier_content : forall fl, In fl c01_layer_file_open ->
+  forall (A : Type) (old old' new : list A), file_after fl old new = new /\ file_after fl old new = file_after fl old' new.
+Proof. exact layer_file_generated. Qed.
+Print Assumptions c01_layer_file_independent_of_earlier_content.
+
+(* ... the output tarball of `apko build` is NOT opened that way (finding C01-F3):
+   BuildIndex's os.OpenFile(outfile, O_CREATE|O_RDWR) keeps the tail of a longer
+   earlier out.tar — REFUTED, replayed by the history stage. *)
+Theorem c01_output_file_independent_of_earlier_content_refuted :
+  exists fl, In fl c01_index_file_open /\ exists old new : list nat, file_after fl old new <> new.
+Proof. exact index_file_keeps_tail. Qed.
+Print Assumptions c01_output_file_independent_of_earlier_content_refuted.
+
+(* (2) GetRepositoryIndexes: one goroutine per repository, each stores its index at
+   its own position (c01_indexes_by_position, in c01_calls) and the holes of missing
+   indexes are dropped afterwards: for every completion order the list of indexes —
+   hence which of two repositories offering the same name and version wins — is the
+   repository order; appending in arrival order would depend on it. *)
+Theorem c01_index_order_schedule : forall (A : Type) (results : list (option A)) sched sched',
+  Permutation sched (seq 0 (List.length results)) -> Permutation sched' (seq 0 (List.length results)) ->
+  indexes_by_position results sched = indexes_by_position results sched' /\
+  indexes_by_position results sched = drop_holes results.
+Proof. intros A. exact (@indexes_by_position_schedule A). Qed.
+Print Assumptions c01_index_order_schedule.
+
+Theorem c01_index_order_by_arrival_refuted :
+  exists (results : list (option string)) sched sched', Permutation sched sched' /\
+    indexes_by_arrival results sched <> indexes_by_arrival results sched'.
+Proof. exact indexes_by_arrival_depends_on_order. Qed.
+Print Assumptions c01_index_order_by_arrival_refuted.
+
+(* (3) several images built in one process share the resolver's process-wide caches:
+   every return of their Get methods is a copy (read by C08's generator; C08 proves
+   the history independence of the cache model, the history stage builds images one
+   after the other in one process and compares with a fresh process). *)
+Theorem c01_caches_hand_out_copies :
+  forallb (String.eqb "maps.Clone") C08Caches.dq_get_returns = true /\
+  forallb (String.eqb "clone") C08Caches.resolver_get_returns = true.
+Proof. exact caches_hand_out_copies. Qed.
+Print Assumptions c01_caches_hand_out_copies.
 
 (* c01_resolve_order — FULL (was refuted until fix c03e0c0, finding C01-F1).
    The install_if loop of GetPackageWithDependencies used to range over the Go
